@@ -13,7 +13,10 @@ structure Obs where
   again : String
   deriving Repr, DecidableEq
 
-def isCrash (r : String) : Bool := r.startsWith "crash"
+/-- `r` starts with `p` (on character lists, so that the kernel can evaluate the predicate). -/
+def pre (p r : String) : Bool := r.toList.take p.length == p.toList
+
+def isCrash (r : String) : Bool := pre "crash" r
 def isTimeout (r : String) : Bool := r == "timeout"
 
 /-- a generated (syntactically valid) program: first violated clause, if any. -/
@@ -22,8 +25,8 @@ def checkProgram (o : Obs) : Option String :=
   else if isTimeout o.min || isTimeout o.full || isTimeout o.again then none      -- `while` may diverge
   else if o.min != o.again then some "deterministic"
   else if o.min != o.full then some "precedence_as_declared"
-  else if o.min.startsWith "syntax" then some "generated_program_parses"
-  else if !(o.min.startsWith "v:" || o.min.startsWith "e:") then some "value_or_script_error"
+  else if pre "syntax" o.min then some "generated_program_parses"
+  else if !(pre "v:" o.min || pre "e:" o.min) then some "value_or_script_error"
   else none
 
 /-- `err:syntax@L:C` must carry a location inside the text (line ≥ 1). -/
@@ -35,8 +38,8 @@ def syntaxLocated (r : String) : Bool :=
 /-- a hostile text (mutated program / arbitrary bytes): it must only return or throw. -/
 def checkHostile (r : String) : Option String :=
   if isCrash r then some "no_crash"
-  else if r.startsWith "err:syntax@" && !syntaxLocated r then some "syntax_error_located"
-  else if r == "ok" || r == "timeout" || r.startsWith "err:" then none
+  else if pre "err:syntax@" r && !syntaxLocated r then some "syntax_error_located"
+  else if r == "ok" || r == "timeout" || pre "err:" r then none
   else some "value_or_script_error"
 
 end Icinga.C15.Spec
